@@ -485,21 +485,44 @@ class Gen:
             return True
         if name == "ppl_%s_linear_partition" % D and len(params) == 4:
             dang = name in self.dangling
-            for r, ry, tag in ((1, 2, "ok"), (2, 3, "ok2"), (1, 5, "ydim3")):
+            pnnc = "Pointset_Powerset_NNC_Polyhedron"
+            # the rest is deleted through the C API when that domain is interfaced (its object is then linked in)
+            delrest = ("ppl_delete_%s(pr)" % pnnc) if pnnc in self.all else "delete reinterpret_cast<Pointset_Powerset<NNC_Polyhedron>*>(pr)"
+            cases = [(1, 2, "ok"), (2, 3, "ok2"), (1, 5, "ydim3")]
+            if self.is_poly:
+                cases += [(9, 10, "nnc"), (10, 11, "nnc2")]
+            for r, ry, tag in cases:
                 self.w("  { Dom::T* proto = Dom::make(%d); cif::Obj<Dom> y(%d); Dom::H pi = 0; ppl_Pointset_Powerset_NNC_Polyhedron_t pr = 0;" % (r, ry))
                 self.w("    Dom::T* mi = 0; Pointset_Powerset<NNC_Polyhedron>* mr = 0;")
                 TT = "Dom::T"
                 call = "linear_partition(t, y.t())"
                 if self.is_poly:
-                    call = "linear_partition(static_cast<const C_Polyhedron&>(t), static_cast<const C_Polyhedron&>(y.t()))"
-                    TT = "C_Polyhedron"
-                self.w("    cif::run_self<Dom>(\"%s\", \"%s%s\", *proto, false, [&](Dom::H h) { return %s(h, y.ch(), &pi, &pr); }," % (name, tag, "-dangling-not-dereferenced" if dang else "", name))
-                self.w("      [&](Dom::T& t) { std::pair<%s, Pointset_Powerset<NNC_Polyhedron> > r = %s; delete mi; delete mr; mi = 0; mr = 0; mi = Dom::clone(r.first); mr = new Pointset_Powerset<NNC_Polyhedron>(r.second); return 0; }, nullptr," % (TT, call))
+                    TT = "NNC_Polyhedron" if r >= 8 else "C_Polyhedron"
+                    call = "linear_partition(static_cast<const %s&>(t), static_cast<const %s&>(y.t()))" % (TT, TT)
+                mir = ("[&](Dom::T& t) { std::pair<%s, Pointset_Powerset<NNC_Polyhedron> > r = %s; delete mi; delete mr; mi = 0; mr = 0; "
+                       "mi = Dom::clone(r.first); mr = new Pointset_Powerset<NNC_Polyhedron>(r.second); return 0; }" % (TT, call))
                 if dang:
+                    self.w("    cif::run_self<Dom>(\"%s\", \"%s-dangling-not-dereferenced\", *proto, false, [&](Dom::H h) { return %s(h, y.ch(), &pi, &pr); }," % (name, tag, name))
+                    self.w("      %s, nullptr," % mir)
                     self.w("      nullptr, false);     // the outputs are addresses of a destroyed local: never dereferenced")
-                else:
-                    self.w("      [&]() -> bool { bool ok = pi != 0 && pr != 0 && Dom::cxx((Dom::CH) pi) == *mi && *reinterpret_cast<Pointset_Powerset<NNC_Polyhedron>*>(pr) == *mr; if (pi) Dom::cdel(pi); if (pr) delete reinterpret_cast<Pointset_Powerset<NNC_Polyhedron>*>(pr); pi = 0; pr = 0; return ok; }, false);")
-                self.w("    delete mi; delete mr; delete proto; }")
+                    self.w("    delete mi; delete mr; delete proto; }")
+                    continue
+                # outputs are OWNED by the caller: used, compared with the C++ result, deleted; ledger balanced
+                self.w("    auto drop = [&] { if (pi) { Dom::cdel(pi); pi = 0; } if (pr) { %s; pr = 0; } };" % delrest)
+                self.w("    cif::run_self<Dom>(\"%s\", \"%s\", *proto, false," % (name, tag))
+                self.w("      [&](Dom::H h) { pi = 0; pr = 0; int r = %s(h, y.ch(), &pi, &pr); cif::disarm(); if (r != 0 && (pi || pr)) { std::printf(\"X|%s|outputs written although the call failed\\n\"); pi = 0; pr = 0; } if (cif::in_oom) drop(); return r; }," % (name, name))
+                self.w("      %s, nullptr," % mir)
+                self.w("      [&]() -> bool { bool ok = pi != 0 && pr != 0 && Dom::cok(pi) > 0 && Dom::cxx((Dom::CH) pi) == *mi && cif::xdump(Dom::cxx((Dom::CH) pi)) == cif::xdump(*mi)")
+                self.w("                        && *reinterpret_cast<Pointset_Powerset<NNC_Polyhedron>*>(pr) == *mr; drop(); return ok; });")
+                # bad_alloc at EVERY allocation point of the entry (also between the two output allocations)
+                if tag in ("ok", "nnc"):
+                    self.w("    for (int pass = 0; pass < 2; ++pass) for (long k = 1; k < 400; ++k) { long base = cif::live; bool f; int r; { cif::Obj<Dom> s(*proto); cif::seen.clear(); cif::arm(k);")
+                    self.w("        pi = 0; pr = 0; r = %s(s.h, y.ch(), &pi, &pr); cif::disarm(); f = cif::fired;" % name)
+                    self.w("        if (pass == 1) { int okw = (r == 0) ? (pi != 0 && pr != 0) : (pi == 0 && pr == 0); cif::quiet = false; cif::emit(\"O\", \"%s\", \"%s\", f ? \"BadAlloc\" : \"noalloc\", 0, r, -1, 1, okw, 1, 0, \"\"); }" % (name, tag))
+                    self.w("        drop(); }")
+                    self.w("      if (pass == 1 && cif::live != base) std::printf(\"L|%s|%s|bad_alloc at allocation %%ld leaked %%ld blocks\\n\", k, cif::live - base);" % (name, tag))
+                    self.w("      if (!f) break; }")
+                self.w("    drop(); delete mi; delete mr; delete proto; }")
             return True
         m = re.match(r"ppl_%s_has_(upper|lower)_bound$" % re.escape(D), name)
         if m and len(params) == 5:
